@@ -349,7 +349,12 @@ class ADWIN(StreamingDetector):
             n_curr + self._window_size
         )
         curr_bucket_row.remove_buckets(1)
-        if curr_bucket_row.bucket_count == 0:
+        # rows emptied by compression (possible for max_buckets=1) hold no
+        # elements: the oldest bucket is in the last non-empty row
+        while (
+            self._bucket_row_list.tail.bucket_count == 0
+            and self._bucket_row_list.tail.prev_bucket is not None
+        ):
             self._bucket_row_list.remove_tail()
         return n_curr
 
